@@ -226,7 +226,15 @@ func (s *srvConn) serve(cfg *negCfg, r *negRec) {
 			s.send("</stream:stream>")
 			s.close()
 			return
-		case "open", "prolog", "junk":
+		case "prolog":
+			continue
+		case "open":
+			// an unrequested stream restart: note it, but answer like a lenient server would, so
+			// that whatever the client does next is still observed
+			r.Order = append(r.Order, "unexpected "+u.String())
+			s.send(s.header("jabber:client") + s.features(cfg, r))
+			continue
+		case "junk":
 			r.Order = append(r.Order, "unexpected "+u.String())
 			s.close()
 			return
